@@ -1,6 +1,6 @@
 """C09 -- forever jobs are never waited for and never outlive the run."""
 
-from . import runrules
+from . import runrules, shutrules
 
 
 def check(ctx, rep):
@@ -14,3 +14,4 @@ def check(ctx, rep):
     runrules.success_accounting(ctx, rep, "R09.2", rule_forever="R09.2")
     runrules.exit_discipline(ctx, rep, "R09.3", "R09.3", "R09.3", causes=('success',))
     runrules.tidy_shape(ctx, rep, "R09.3t")
+    shutrules.cancellation_edges(ctx, rep, "R09.4")
